@@ -41,7 +41,7 @@ a malformed body, reports a non-zero exit status, or does not confirm the save. 
 def badFull (b : Backend) (ρ : Role) (r : Reply) : Bool :=
   !promptArrives r || (!Backend.isConsole b && (!r.status200 || (!r.parses && bodyMatters b ρ)))
   || (Backend.isConsole b && (!r.echoOk || r.out == .text))
-  || (ρ == .probe && !r.flags.contains .status0)
+  || (ρ == .probe && promptArrives r && !r.flags.contains .status0)
   || (ρ == .save && b != .linux && promptArrives r && !saveContent r)
 
 /-- The part of `badFull` for which the property is proved: everything except error text,
@@ -53,7 +53,7 @@ def badChecked (b : Backend) (ρ : Role) (r : Reply) : Bool :=
   (!promptArrives r && !replayed b ρ r)
   || (!Backend.isConsole b && promptArrives r && (!r.status200 || (!r.parses && bodyMatters b ρ)))
   || (Backend.isConsole b && (ρ == .change) && (!r.echoOk || r.out == .text))
-  || (ρ == .probe && ((Backend.isConsole b && !r.echoOk) || !r.flags.contains .status0))
+  || (ρ == .probe && promptArrives r && ((Backend.isConsole b && !r.echoOk) || !r.flags.contains .status0))
   || (ρ == .save && b != .linux && promptArrives r && !saveContent r)
 
 theorem badChecked_imp_badFull (b : Backend) (ρ : Role) (r : Reply) :
